@@ -16,10 +16,18 @@ var nowTime = time.Now
 // This installs a hook into the login process so that the
 // LastAction is recorded immediately.
 func Setup(ab *authboss.Authboss) error {
-	ab.Events.After(authboss.EventAuth, func(w http.ResponseWriter, r *http.Request, handled bool) (bool, error) {
+	stamp := func(w http.ResponseWriter, r *http.Request, handled bool) (bool, error) {
 		refreshExpiry(w)
 		return false, nil
-	})
+	}
+
+	// Every way of logging in announces itself with one of these events:
+	// password, otp, 2fa and recover logins with EventAuth, the oauth2
+	// callback with EventOAuth2 and the login that follows a registration
+	// with EventRegister.
+	ab.Events.After(authboss.EventAuth, stamp)
+	ab.Events.After(authboss.EventOAuth2, stamp)
+	ab.Events.After(authboss.EventRegister, stamp)
 
 	return nil
 }
